@@ -89,7 +89,7 @@ PROPS = {
         "assumptions": ["existential unforgeability of the primitives is assumed; the theorems reduce acceptance of a changed authenticated item to a forgery"],
     },
     "C03": {
-        "modules": ["Cose.Props.C03"], "families": ["msg:C03"], "spec_ops": [],
+        "modules": ["Cose.Props.C03"], "families": ["msg:C03", "prim:aead"], "spec_ops": [],
         "n_quick": 400, "n_thorough": 50000,
         "rule": "valid Encrypt0/Encrypt messages over 12 AEADs, then alterations as for C02 (ciphertext, IV, protected bytes, prefix, shape, key, external data); after a failed Decrypt the harness "
                 "inspects the message object's Payload (PAYLOAD-LEAKED is reported if it is not the zero value)",
@@ -138,7 +138,7 @@ PROPS = {
         "assumptions": ["known finding D9 (uninterpretable key_ops lift the restriction) is listed in known_findings.txt and proved as malformed_ops_unusable_cex"],
     },
     "C17": {
-        "modules": ["Cose.Props.C17"], "families": ["key", "impl", "sig", "dec", "map"], "spec_ops": ["dec.keyjson"],
+        "modules": ["Cose.Props.C17"], "families": ["key", "impl", "sig", "ecdh", "dec", "map"], "spec_ops": ["dec.keyjson"],
         "n_quick": 1000, "n_thorough": 100000,
         "rule": "symmetric / Ed25519 / ECDSA keys with optional and broken members (kty, alg in every Go kind or absent or foreign, kid, key_ops, Base IV, extra labels, wrong sizes), nil key; "
                 "key.info (kty/alg/ops/kid/baseIV), key.factory for the four kinds (registered / not registered / invalid), behaviour of the obtained implementation",
